@@ -188,12 +188,14 @@ impl Inner {
 
 impl redb::StorageBackend for MemBackend {
     fn len(&self) -> Result<u64, io::Error> {
+        crate::schedx::backend_point();
         let mut g = self.lock();
         g.enter(CallKind::Len)?;
         Ok(g.data.len() as u64)
     }
 
     fn read(&self, offset: u64, out: &mut [u8]) -> Result<(), io::Error> {
+        crate::schedx::backend_point();
         let mut g = self.lock();
         let end = offset + out.len() as u64;
         if end > g.data.len() as u64 {
@@ -212,6 +214,7 @@ impl redb::StorageBackend for MemBackend {
     }
 
     fn set_len(&self, len: u64) -> Result<(), io::Error> {
+        crate::schedx::backend_point();
         let mut g = self.lock();
         g.enter(CallKind::SetLen)?;
         g.data.resize(len as usize, 0);
@@ -223,6 +226,7 @@ impl redb::StorageBackend for MemBackend {
     }
 
     fn sync_data(&self) -> Result<(), io::Error> {
+        crate::schedx::backend_point();
         let mut g = self.lock();
         g.enter(CallKind::Sync)?;
         if g.record {
@@ -232,6 +236,7 @@ impl redb::StorageBackend for MemBackend {
     }
 
     fn write(&self, offset: u64, data: &[u8]) -> Result<(), io::Error> {
+        crate::schedx::backend_point();
         let mut g = self.lock();
         let end = offset + data.len() as u64;
         if end > g.data.len() as u64 {
@@ -250,6 +255,7 @@ impl redb::StorageBackend for MemBackend {
     }
 
     fn close(&self) -> Result<(), io::Error> {
+        crate::schedx::backend_point();
         let mut g = self.lock();
         if let Some(t) = g.trace.as_mut() {
             t.push(CallKind::Close);
